@@ -30,7 +30,7 @@ ALLOW = os.path.join(VERIF, 'trusted_allowlist.txt')
 MINIMUMS = os.path.join(VERIF, 'units', 'minimums.json')
 
 # properties whose witness search is deterministic (no timing, no socket-buffer dependence)
-WITNESS_FALLBACK = ('C01', 'C02', 'C03', 'C04', 'C05', 'C11', 'C12', 'C13', 'C16')
+WITNESS_FALLBACK = ('C01', 'C02', 'C03', 'C04', 'C05', 'C06', 'C11', 'C12', 'C13', 'C16')
 
 TRUST_PATTERNS = [r'\bassume\s*\(', r'\badmit\s*\(', r'external_body', r'assume_specification',
                   r'external_type_specification', r'external_trait_specification', r'\buninterp\b',
@@ -328,6 +328,8 @@ def main():
             if d['message'].startswith('hint does not compile'):
                 shaky.add((u, d.get('fn')))
         for cid in (getattr(r, 'lost_anchors', None) or []):
+            if cid in r.g.clauses and r.g.clauses[cid]['kind'] == 'loop':
+                continue   # the loop is gone: its invariant is moot, nothing that remains depends on it
             fn_of = r.g.clauses[cid]['fn'] if cid in r.g.clauses else cid.split('.rewrite.')[0].rsplit('.', 1)[0] if '.rewrite.' not in cid else cid.split('.rewrite.')[0]
             shaky.add((u, fn_of))
         if getattr(r, 'lost_anchors', None):
@@ -399,7 +401,7 @@ def main():
     violations = [v for v in violations if (v.get('unit'), v.get('fn')) not in shaky]
     amb_wit = None
     if ambiguous and not violations:
-        amb_wit = witness(prop, ambiguous[0]['clause'], tier) if prop in WITNESS_FALLBACK + ('C06',) else None
+        amb_wit = witness(prop, ambiguous[0]['clause'], tier) if prop in WITNESS_FALLBACK else None
         if amb_wit and amb_wit.get('status') == 'found':
             violations = ambiguous      # confirmed on the real code by a concrete failing input
         else:
